@@ -203,8 +203,14 @@ def feats (m : StateModel α) : List (String × StateFeature α) := Container.ab
 theorem wf_empty : WF (empty : StateModel α) ∧ feats (empty : StateModel α) = [] :=
   ⟨Container.inv_empty, Container.abs_empty⟩
 
-theorem wf_new (fs : List (String × StateFeature α)) (nd : (fs.map (·.1)).Nodup) :
-    WF (new fs) ∧ feats (new fs) = fs := Container.new_refines fs nd
+theorem wf_new (fs : List (String × StateFeature α)) :
+    WF (new fs) ∧ feats (new fs) = Spec.insertAll [] fs := Container.new_refines fs
+
+theorem wf_new_of_nodup (fs : List (String × StateFeature α)) (nd : (fs.map (·.1)).Nodup) :
+    WF (new fs) ∧ feats (new fs) = fs := by
+  have := wf_new fs
+  rw [Spec.insertAll_nil_of_nodup fs nd] at this
+  exact this
 
 theorem feats_nodup {m : StateModel α} (h : WF m) : ((feats m).map (·.1)).Nodup :=
   Container.abs_keys_nodup h
